@@ -369,6 +369,35 @@ def gen_glue(rng, count):
     return out
 
 
+def gen_lol_shapes(rng, thorough):
+    """lists of lists by shape: k = 1..9 empty validation passes only; exactly one non-empty pass at every position
+    (all other passes empty); one empty pass at every position among non-empty ones"""
+    out = []
+    pred = rand_hash(rng, 'B')
+    for k in range(1, 10):
+        out.append((1, [[] for _ in range(k)], pred, 0, 'shape'))
+    for k in range(1, 10 if thorough else 6):
+        for pos in range(k):
+            ll = [[] for _ in range(k)]
+            ll[pos] = [rand_hash(rng) for _ in range(rng.choice([1, 1, 2, 3]))]
+            out.append((1, ll, pred, 0, 'shape'))
+    for k in range(2, 7 if thorough else 5):
+        for pos in range(k):
+            ll = [[rand_hash(rng) for _ in range(rng.choice([1, 2]))] for _ in range(k)]
+            ll[pos] = []
+            out.append((1, ll, pred, 0, 'shape'))
+    # flat lists by shape: all elements equal, duplicates adjacent / apart, sorted / reverse-sorted; identical passes
+    a, b, c = rand_hash(rng), rand_hash(rng), rand_hash(rng)
+    flats = [[a] * n for n in ((2, 3, 4, 5, 8, 9, 16, 17) if thorough else (2, 3, 5, 8))]
+    flats += [[a, b, a], [a, a, b], [b, a, a], [a, b, a, b], sorted([a, b, c]), sorted([a, b, c], reverse=True), [a, b, c, c]]
+    for i, fl in enumerate(flats):
+        kind = (0, 2, 3)[i % 3]
+        out.append((kind, [[b58d(x).hex() for x in fl]] if kind == 3 else [list(fl)], pred, 1, 'shape'))
+    for ll in ([[a], [a]], [[a], [a], [a]], [[a, b], [a, b]], [[a], [b], [a]]):
+        out.append((1, [list(x) for x in ll], pred, 0, 'shape'))
+    return out
+
+
 def gen_sequences(rng, groups):
     """call sequences that make state kept between calls visible: within a group the same predecessor and round
     (resp. related lists: prefixes, permutations, repeats, the empty list before and after) are used for
@@ -427,7 +456,8 @@ def run(ctx: lib.Ctx) -> None:
                 'in the thorough tier); num: every length 0..600 with seeded leaves under a polynomial algebra; real: every length 0..600 with '
                 'random 32-byte hashes against hashlib; glue: the four functions on small lists with real Blake2b/base58 incl. malformed '
                 'base58 and out-of-range rounds, plus call sequences in one process with equal (predecessor, round) and related lists '
-                '(empty before/after, prefixes, permutations, repeats), each call checked against the padded-tree oracle. non-trivial = length >= 3 (padding or more than one level); distinct = distinct (stream, length/input)')
+                '(empty before/after, prefixes, permutations, repeats), and lists of lists by shape (1..9 empty passes only, exactly one non-empty / one '
+                'empty pass at every position), each call checked against the padded-tree oracle. non-trivial = length >= 3 (padding or more than one level); distinct = distinct (stream, length/input)')
     reported = 0
 
     def report(what, rep, found=True):
@@ -528,6 +558,7 @@ def run(ctx: lib.Ctx) -> None:
     for kind, lists, pred, rnd in vectors:
         glue.append((kind, lists, pred, rnd, 'vector'))
     glue += gen_glue(rng, ctx.n(16, 600))
+    glue += gen_lol_shapes(rng, ctx.thorough)
     glue += gen_sequences(rng, ctx.n(3, 40))
     history = []  # earlier calls of this process (state kept between calls shows up only after them)
     for kind, lists, pred, rnd, tag in glue:
@@ -536,7 +567,7 @@ def run(ctx: lib.Ctx) -> None:
         history.append([kind, lists, pred, rnd])
         flatn = sum(len(l) for l in lists)
         ctx.case(('glue', kind, json.dumps(lists), pred, rnd), nontrivial=flatn >= 3,
-                 kind=f'glue{kind}:{"sequence" if tag == "seq" else "malformed" if tag in ("checksum", "foreign", "round", "pred") else "valid"}',
+                 kind=f'glue{kind}:{"sequence" if tag == "seq" else "shape" if tag == "shape" else "malformed" if tag in ("checksum", "foreign", "round", "pred") else "valid"}',
                  sample={'stream': 'glue', 'function': kind, 'lists': [len(l) for l in lists], 'round': rnd, 'result': got} if flatn == 5 else None)
         fname = ['operation_list_hash', 'operation_list_list_hash', 'block_payload_hash', '_reduce_operation_hashes'][kind]
         if want is not None and got != want:
